@@ -43,10 +43,19 @@ CLAIMED = {
     "C17": ("differential monitor: Graph/TaskGraph/JobGraph routines vs brute force on enumerated and random DAGs and cyclic graphs",
             "complete for all DAGs on <=5 nodes (quick) / <=6 nodes (thorough) in several insertion orders, sampled beyond",
             "DESIGN.md 4/C17", "Trusted base: the brute-force reference in vmon/checks/c17_graphs.py."),
+    "C09": ("differential trace monitor: two fresh `python main.py` processes per world with different PYTHONHASHSEED, CSVs compared row by row after masking wall-clock fields",
+            "held on the K process pairs covering every source of randomness (deadline variance, Poisson/Gamma arrivals, conditionals, runtime variance) under deterministic policies",
+            "DESIGN.md 4/C09", "One machine: hash seeds and fresh processes stand in for 'other processes and machines'. Masked: SCHEDULER_FINISHED wall-clock column, output-path flags."),
+    "C13": ("oracle monitor on direct schedule() calls: independent fit check on single-worker pools with priority keys recomputed by the harness",
+            "held on the K generated invocations of EDF/FIFO/LSF with unplaced tasks and many ties",
+            "DESIGN.md 4/C13", "Trusted base: the fit oracle and priority keys in vmon/checks/c13_priority.py; single-worker pools only."),
+    "C19": ("differential monitor: loader output vs the description kept by the generator (YAML and JSON, with and without absl flags); closed-loop in-flight census from observed events of full simulations",
+            "held on the K generated descriptions over all five release policies, override flags and replication, and on the closed-loop runs",
+            "DESIGN.md 4/C19", "Trusted base: the generator's description. Deadline base not judged when zero-weight jobs make the critical path's SLO sum ambiguous."),
 }
 
 _WIP = "check not built yet in this session; planned with the same technique, see DESIGN.md section 4"
-NOT_YET = {p: _WIP for p in ["C09", "C10", "C11", "C12", "C13", "C14", "C15", "C18", "C19", "C20"]}
+NOT_YET = {p: _WIP for p in ["C10", "C11", "C12", "C14", "C15", "C18", "C20"]}
 
 
 def build():
